@@ -270,6 +270,12 @@ class Builder:
         """field of obj is written by other threads: each read in code returns reader(I, obj, field)."""
         self.I.volatile[(id(obj), field)] = reader
 
+    def on_write(self, obj, field, hook):
+        """hook(I, obj, field, value) is called at every assignment to obj.field in the code under contract (guarded-by obligations)"""
+        if not hasattr(self.I, 'write_hooks') or self.I.write_hooks is None:
+            self.I.write_hooks = {}
+        self.I.write_hooks[(id(obj), field)] = hook
+
     def ghost(self, name, value):
         self.I.ghost[name] = value
         return value
